@@ -260,10 +260,15 @@ structure Side (s : Server) : Prop where
   inl : ∀ k, k ≠ 0 → (getObj s k).inline = false
   pendOK : PendOK s.pending
   parked_nz : ∀ k ∈ s.parked, k ≠ 0
+  inl0 : (getObj s 0).inline = true
 
 theorem Side.of_act {i : Nat} {s s' : Server} (h : Side s) (a : Act i s s') (hip : i ∉ s.parked)
     (hpe : ∀ p ∈ s.pending, p.stage = 1 → p.obj ≠ i) : Side s' := by
-  refine ⟨?_, ?_, ?_, ?_, ?_, ?_, ?_, ?_, ?_, by rw [a.pending]; exact h.pendOK, by rw [a.parked]; exact h.parked_nz⟩
+  refine ⟨?_, ?_, ?_, ?_, ?_, ?_, ?_, ?_, ?_, by rw [a.pending]; exact h.pendOK, by rw [a.parked]; exact h.parked_nz, ?_⟩
+  rotate_left 9
+  · by_cases h0 : (0 : Nat) = i
+    · subst h0; rw [a.inl]; exact h.inl0
+    · rw [← (a.other 0 h0).inline]; exact h.inl0
   · intro k hk
     rw [a.parked] at hk
     have hki : k ≠ i := fun e => hip (e ▸ hk)
@@ -287,7 +292,8 @@ theorem Side.of_act {i : Nat} {s s' : Server} (h : Side s) (a : Act i s s') (hip
     · rw [← (a.other k hki).inline]; exact h.inl k hk
 
 theorem Side.of_quiet {s s' : Server} (h : Side s) (q : Quiet s s') : Side s' := by
-  refine ⟨?_, ?_, ?_, ?_, ?_, ?_, ?_, ?_, ?_, by rw [q.pending]; exact h.pendOK, by rw [q.parked]; exact h.parked_nz⟩
+  refine ⟨?_, ?_, ?_, ?_, ?_, ?_, ?_, ?_, ?_, by rw [q.pending]; exact h.pendOK, by rw [q.parked]; exact h.parked_nz,
+    by rw [← (q.all 0).inline]; exact h.inl0⟩
   · intro k hk
     rw [q.parked] at hk
     rw [← (q.all k).stopped]
@@ -1057,7 +1063,8 @@ theorem preAdmit_new (s : Server) (hw : WF s) (hinf : InflInv s) (h : ConnInv s)
       have := (hw.pending_valid p hp).1
       omega
   refine ⟨?_, hl, by rw [hn]; exact hopen, ?_⟩
-  · refine ⟨?_, h.side.disj, h.side.pend_np, ?_, ?_, ?_, ?_, ?_, ?_, h.side.pendOK, h.side.parked_nz⟩
+  · refine ⟨?_, h.side.disj, h.side.pend_np, ?_, ?_, ?_, ?_, ?_, ?_, h.side.pendOK, h.side.parked_nz,
+      by rw [hg 0 (Ne.symm hnz)]; exact h.side.inl0⟩
     · intro k hk
       rw [hg k (by have := h.side.parked_lt k hk; omega)]
       exact h.side.parked_stopped k hk
@@ -1111,7 +1118,7 @@ theorem PreAdmit.park1 {t : Server} {i : Nat} (hp : PreAdmit t i) (hst : (getObj
     ConnInv { t with pending := t.pending ++ [p] } := by
   have hl := hp.loop
   refine ⟨⟨hp.side.parked_stopped, hp.side.disj, ?_, ?_, hp.side.conn_nz, hp.side.parked_lt, hp.side.parkedEarly_lt,
-    hp.side.id0, hp.side.inl, hok, hp.side.parked_nz⟩, ?_⟩
+    hp.side.id0, hp.side.inl, hok, hp.side.parked_nz, hp.side.inl0⟩, ?_⟩
   · intro q hq
     rcases List.mem_append.mp hq with hq | hq
     · exact hp.side.pend_np q hq
@@ -1142,7 +1149,7 @@ theorem ConnInv.park2 {t : Server} {i : Nat} (h : ConnInv t) (hl : InLoop t i) (
     (p : Pending) (hpo : p.obj = i) (hps : p.stage ≠ 1) (hok : PendOK (t.pending ++ [p])) :
     ConnInv { t with pending := t.pending ++ [p] } := by
   refine ⟨⟨h.side.parked_stopped, h.side.disj, ?_, ?_, h.side.conn_nz, h.side.parked_lt, h.side.parkedEarly_lt,
-    h.side.id0, h.side.inl, hok, h.side.parked_nz⟩, ?_⟩
+    h.side.id0, h.side.inl, hok, h.side.parked_nz, h.side.inl0⟩, ?_⟩
   · intro q hq
     rcases List.mem_append.mp hq with hq | hq
     · exact h.side.pend_np q hq
@@ -1192,7 +1199,7 @@ theorem unpark (s : Server) (hw : WF s) (hinf : InflInv s) (h : ConnInv s) (p : 
      fun q hq => (hsub q hq).2⟩
   refine ⟨⟨h.side.parked_stopped, h.side.disj, fun q hq => h.side.pend_np q (hsub q hq).1,
     fun q hq => h.side.pend1_live q (hsub q hq).1, h.side.conn_nz, h.side.parked_lt, h.side.parkedEarly_lt, h.side.id0,
-    h.side.inl, h.side.pendOK.sublist List.filter_sublist, h.side.parked_nz⟩, hl, ?_⟩
+    h.side.inl, h.side.pendOK.sublist List.filter_sublist, h.side.parked_nz, h.side.inl0⟩, hl, ?_⟩
   have hH : ∀ k, k ≠ p.obj → Hb { s with pending := s.pending.filter (·.conn != p.conn) } k = Hb s k := by
     intro k hk
     refine Hb_congr' rfl rfl ?_ ?_ rfl
@@ -1216,7 +1223,7 @@ theorem ConnInv.toParked {t t' : Server} {i : Nat} (h : ConnInv t) (hl : InLoop 
     (hst : (getObj t' i).stopped = true) : ConnInv { t' with parked := t'.parked ++ [i] } := by
   have hs' : Side t' := h.side.of_act a hl.np (fun p hp _ => hl.npend p hp)
   have hl' := hl.act a
-  refine ⟨⟨?_, ?_, ?_, hs'.pend1_live, hs'.conn_nz, ?_, hs'.parkedEarly_lt, hs'.id0, hs'.inl, hs'.pendOK, ?_⟩, ?_⟩
+  refine ⟨⟨?_, ?_, ?_, hs'.pend1_live, hs'.conn_nz, ?_, hs'.parkedEarly_lt, hs'.id0, hs'.inl, hs'.pendOK, ?_, hs'.inl0⟩, ?_⟩
   · intro k hk
     rcases List.mem_append.mp hk with hk | hk
     · exact hs'.parked_stopped k hk
@@ -1260,7 +1267,7 @@ theorem ConnInv.toParkedEarly {t : Server} {i : Nat} (h : ConnInv t) (hl : InLoo
     (Quiet.refl _).mod i _ (by own_rfl)
   have hmid : ConnInv { t with parkedEarly := t.parkedEarly ++ [i] } := by
     refine ⟨⟨h.side.parked_stopped, ?_, ?_, h.side.pend1_live, h.side.conn_nz, h.side.parked_lt, ?_, h.side.id0,
-      h.side.inl, h.side.pendOK, h.side.parked_nz⟩, ?_⟩
+      h.side.inl, h.side.pendOK, h.side.parked_nz, h.side.inl0⟩, ?_⟩
     · intro k hk x
       rcases List.mem_append.mp x with x | x
       · exact h.side.disj k hk x
@@ -1305,7 +1312,7 @@ theorem ConnInv.fromParked {s : Server} {i : Nat} (h : ConnInv s) (hos : ∀ k, 
     ⟨fun k hk => h.side.parked_stopped k (hsub k hk).1, fun k hk => h.side.disj k (hsub k hk).1,
       fun p hp => ⟨fun x => (h.side.pend_np p hp).1 (hsub _ x).1, (h.side.pend_np p hp).2⟩, h.side.pend1_live,
       h.side.conn_nz, fun k hk => h.side.parked_lt k (hsub k hk).1, h.side.parkedEarly_lt, h.side.id0, h.side.inl,
-      h.side.pendOK, fun k hk => h.side.parked_nz k (hsub k hk).1⟩
+      h.side.pendOK, fun k hk => h.side.parked_nz k (hsub k hk).1, h.side.inl0⟩
   have hH : ∀ k, k ≠ i → Hb (unparkB s i) k = Hb s k := by
     intro k hk
     refine Hb_congr' ?_ rfl rfl rfl rfl
@@ -1339,7 +1346,7 @@ theorem ConnInv.fromParkedEarly {s : Server} {i : Nat} (h : ConnInv s) (hie : i 
     ⟨h.side.parked_stopped, fun k hk x => h.side.disj k hk (hsub k x).1,
       fun p hp => ⟨(h.side.pend_np p hp).1, fun x => (h.side.pend_np p hp).2 (hsub _ x).1⟩, h.side.pend1_live,
       h.side.conn_nz, h.side.parked_lt, fun k hk => h.side.parkedEarly_lt k (hsub k hk).1, h.side.id0, h.side.inl,
-      h.side.pendOK, h.side.parked_nz⟩
+      h.side.pendOK, h.side.parked_nz, h.side.inl0⟩
   refine ⟨hside0.of_act a hnp (fun p hp _ => hnpend p hp), ?_⟩
   have hH : ∀ k, k ≠ i → Hb (detach { s with parkedEarly := s.parkedEarly.filter (· != i) } i true).1 k = Hb s k := by
     intro k hk
